@@ -134,7 +134,7 @@ def run_case(ctx, kind_, idx):
                     return fail("not_arrays")
                 if not (np.array_equal(gx[:-1], np.asarray(x, float)) and np.array_equal(gy, np.asarray(wy, float))):
                     return fail("values", got=[gx, gy])
-                if abs(float(gx[-1]) - wx[-1]) > 1e-9 * max(abs(wx[-1]), abs(float(x[-1]))):
+                if not abs(float(gx[-1]) - wx[-1]) <= 1e-9 * max(abs(wx[-1]), abs(float(x[-1]))):
                     return fail("new_abscissa", got=float(gx[-1]), want=wx[-1])
                 ctx.nontriv("c17", idx)
             elif h == "integrals":
@@ -304,7 +304,7 @@ def run_case(ctx, kind_, idx):
                     elif op == "read":
                         flat = int(rng.integers(0, len(sh)))
                         i, j = divmod(flat, n)
-                        if abs(float(ia[i, j]) - sh[flat]) > 1e-9 * mag:
+                        if not abs(float(ia[i, j]) - sh[flat]) <= 1e-9 * mag:
                             return fail("read_after_history", flat=flat)
                     else:
                         if len(ia) != len(sh) or ia.nr_of_full_intervals() != len(sh) // n:
